@@ -374,6 +374,33 @@ type bbState struct {
 	sufCalls   map[base.Height]int
 	notFoundN  int
 	sufErrAt   int
+
+	// Vote calls in progress per record key, and the event sequence number at which the last one returned: a call
+	// that passed the old-ballot test before the last point moved creates its record afterwards
+	inflight    map[string]int
+	lastVoteEnd map[string]int64
+}
+
+func (s *bbState) voteBegins(d *bbDelivery) string {
+	k := keyOf(d.point, isaac.IsSuffrageConfirmBallotFact(d.bl.SignFact().Fact()))
+
+	if s.inflight == nil {
+		s.inflight, s.lastVoteEnd = map[string]int{}, map[string]int64{}
+	}
+
+	s.inflight[k]++
+
+	return k
+}
+
+func (s *bbState) voteEnds(k string, seq int64) {
+	s.inflight[k]--
+	s.lastVoteEnd[k] = seq
+}
+
+// votedSince: a Vote call for the record key is in progress, or returned at or after the event seq
+func (s *bbState) votedSince(k string, seq int64) bool {
+	return s.inflight[k] > 0 || (s.lastVoteEnd[k] >= seq && s.lastVoteEnd[k] > 0)
 }
 
 func (s *bbState) noteDelivery(d *bbDelivery) {
@@ -585,7 +612,11 @@ func bbRun(r *simkit.Run, c05 bool) {
 					err   error
 				)
 
-				if r.Guard("vote", func() { voted, err = box.Vote(d.bl) }) {
+				vk := s.voteBegins(d)
+				panicked := r.Guard("vote", func() { voted, err = box.Vote(d.bl) })
+				s.voteEnds(vk, r.Seq())
+
+				if panicked {
 					continue
 				}
 
